@@ -33,11 +33,11 @@ structure Input where
   p : Bytes
 
 inductive Err where
-  | badGroup | gaTooBig | saTooBig
+  | badGroup | gaTooBig | saTooBig | tape
   deriving Repr, DecidableEq
 
 def Err.tag : Err → String
-  | .badGroup => "bad-group" | .gaTooBig => "ga-too-big" | .saTooBig => "sa-too-big"
+  | .badGroup => "bad-group" | .gaTooBig => "ga-too-big" | .saTooBig => "sa-too-big" | .tape => "tape"
 
 namespace Impl
 
@@ -134,6 +134,24 @@ def srpHash (S : SrpPrims) (isPrime : Int → Bool) (password srpB random : Byte
         let w3 : Vals := { w2 with ka := ka, xorHpHg := xorHpHg }
         let m1 := hash S (w3.opnds S Facts.C15.m1Operands)
         .ok (ga, m1)
+
+/-- a zeroed `[256]byte`. -/
+def zero256 : Bytes := List.replicate 256 0
+
+/-- `SRP.NewHash(password, i)` (new_hash.go): validates the group, appends 32 bytes of the random source
+to `salt1`, and returns `(pad(v), newSalt1)` with `v = g^x mod p`, `x = PH2(password, newSalt1, salt2)`.
+`tape` = the bytes the random source delivers (`io.ReadFull` fails when fewer than 32 are left). -/
+def newHash (S : SrpPrims) (isPrime : Int → Bool) (password tape : Bytes) (i : Input) :
+    Except Err (Bytes × Bytes) :=
+  let p := beNat i.p
+  if C13.checkDH isPrime i.g (p : Int) ≠ .ok then .error .badGroup
+  else if tape.length < 32 then .error .tape
+  else
+    let newClientSalt := i.salt1 ++ tape.take 32
+    let x := beNat (secondary S password newClientSalt i.salt2)
+    let v := S.powMod i.g.toNat x p
+    -- `padded, _ := s.pad256FromBig(v)`: the flag is ignored, a too large value would give zeros
+    .ok ((pad256FromBig v).getD zero256, newClientSalt)
 
 end Impl
 
